@@ -25,6 +25,7 @@ from harness.samplers import index_rng, object_real_rng, sampler_world
 from symx.core import Sym, cur, lift, sym_ite, SymBool
 from symx.npx import patched
 from symx.stubs import scripted_rng
+from symx.core import reraise_if_harness  # noqa: E402
 
 LEVEL = "other"
 FUNCTIONS = [
@@ -217,6 +218,7 @@ def replay_concrete(kind, cfgs, B, rows, v, ncalls=2):
     try:
         space = SearchSpace([lo, hi], prec, verbose=False)
     except Exception as e:  # noqa: BLE001
+        reraise_if_harness(e)
         return False, f"search space rejected: {e}"
     grids = space.param_grid
     decl = [[float(Fraction(lo[d]) + k * CONFIGS[cfgs[d]][1]) for k in range(int((CONFIGS[cfgs[d]][0] + Fraction(1, 10**7)) / CONFIGS[cfgs[d]][1]) + 1)] for d in range(dims)]
@@ -247,6 +249,7 @@ def replay_concrete(kind, cfgs, B, rows, v, ncalls=2):
                     pts = np.vstack((pts, out))
                     losses = np.hstack((losses, [float(f(v.get(f"hl{rows + j}", 0.5 + j))) for j in range(B)]))
     except Exception as e:  # noqa: BLE001
+        reraise_if_harness(e)
         msgs.append(f"{kind}.sample raised {type(e).__name__}: {e}")
     return bool(msgs), f"{kind} on bounds {lo}..{hi} precision {prec}, history losses {losses[:rows].tolist()}: " + ("; ".join(msgs[:3]) or "all on grid")
 
